@@ -336,13 +336,57 @@ fn apply_stack_effects(fun_builder: &mut FunBuilder, instructions: &mut [Symboli
     Arity::Fixed(count) | Arity::Variadic(count) | Arity::Default(count, _) => *count as i32,
   };
 
+  // the depth the stack has when a label is entered through a jump.
+  // Code following an unconditional transfer is only reachable through
+  // its label so the depth is taken from the jump instead of the
+  // instruction that happens to sit in front of it
+  let mut label_slots: Vec<Option<i32>> = vec![None; label_count(instructions)];
+  let mut falls_through = true;
+
   for instruction in instructions {
+    if let SymbolicByteCode::Label(label) = instruction {
+      if !falls_through {
+        if let Some(Some(jump_slots)) = label_slots.get(label.val() as usize) {
+          slots = *jump_slots;
+        }
+      }
+    }
+    falls_through = true;
+
     if let SymbolicByteCode::PushHandler((_, label)) = instruction {
       // TODO handle to many slots
       *instruction = SymbolicByteCode::PushHandler(((slots + parameters) as u16, *label))
     }
 
+    let before = slots;
     slots += instruction.stack_effect();
+
+    let jump = match instruction {
+      SymbolicByteCode::Jump(label) => {
+        falls_through = false;
+        Some((label, slots))
+      },
+      SymbolicByteCode::JumpIfFalse(label) | SymbolicByteCode::CheckHandler(label) => {
+        Some((label, slots))
+      },
+      // a short circuit keeps its operand when it jumps
+      SymbolicByteCode::And(label) | SymbolicByteCode::Or(label) => Some((label, before)),
+      SymbolicByteCode::Loop(_)
+      | SymbolicByteCode::Return
+      | SymbolicByteCode::Raise
+      | SymbolicByteCode::ContinueUnwind => {
+        falls_through = false;
+        None
+      },
+      _ => None,
+    };
+
+    if let Some((label, jump_slots)) = jump {
+      if let Some(label_slot) = label_slots.get_mut(label.val() as usize) {
+        *label_slot = Some(jump_slots);
+      }
+    }
+
     debug_assert!(slots >= 0);
     fun_builder.update_max_slots(slots);
   }
